@@ -20,6 +20,7 @@ class FunctionReport:
         self.assumptions = set()
         self.mode = None
         self.case = None
+        self.exit_pathends = []
         self.callees = set()     # checked (non-abstract) callee contracts whose clauses were assumed at call sites
         self.outcomes = []       # (kind, hyps, result value | exception class, top_env) per path  (pyvc/xcheck.py)
 
@@ -63,7 +64,10 @@ def verify_function(prog, reg, key, mode='int', case=None, pruning=True, max_pat
         try:
             _run_path(eng, fi, c, case, rep, suffix)
         except PathEnd:
-            pass
+            if getattr(eng, '_at_exit', False):
+                # the path reached an exit but the evaluation of its exit specification stopped: obligations may be
+                # missing (never silently: reported in the evidence, and an error when nothing at all was obliged there)
+                rep.exit_pathends.append(f'{fi.qualname}#p{path_id}')
         except Unsupported as ex:
             rep.error = f'unsupported:{ex}'
             rep.obs.extend(eng.obs)
@@ -141,6 +145,7 @@ def _run_path(eng, fi, c, case, rep, suffix):
     except PyRaise as ex:
         outcome = ('raise', ex)
     final_locals = dict(fr.locals)
+    eng._at_exit = True
     eng.frame = Frame(None, fi.module, {})
     old = VOld(env, eng.pre_state)
     env2 = {k: v for k, v in final_locals.items() if not k.startswith('$')}     # final values of the locals ...
